@@ -510,6 +510,8 @@ func DefaultExternals() map[string]externalFn {
 		// the process environment is empty
 		"syscall.runtime_envs":       func(fr *frame, args []value) value { return []value(nil) },
 		"internal/godebug.setUpdate": nop, "internal/godebug.registerMetric": nop, "internal/godebug.setNewIncNonDefault": nop,
+		"internal/syscall/unix.Fcntl": func(fr *frame, args []value) value { return tuple{0, iface{}} }, // os.init probes the standard descriptors
+		"os.runtime_args":             func(fr *frame, args []value) value { return []value{"verif"} },  // the process arguments
 		"syscall.Getrlimit": func(fr *frame, args []value) value {
 			return fr.i.newError("getrlimit: not available under symbolic execution")
 		},
